@@ -59,7 +59,7 @@ P = {
         "--from-zone and dzone --next/--prev on a sample. Exhaustive over the transitions of the files visited.",
    note=SAN + "instants before the first transition are outside the property; no POSIX footer. " + TB, ref="3 C12"),
  "C13": dict(cat="exploration", tech="differential history monitor (N-value run vs N single-value runs; handle-with-history vs fresh handle) + probes + ASan/UBSan",
-   text="36 tool/option sets x 12 histories (permutations, junk prefixes, >255/>512 lines, duplicates, reversal, arguments) "
+   text="41 tool/option sets x 12 histories (permutations, junk prefixes, >255/>512 lines, duplicates, reversal, arguments) "
         "compared byte-for-byte with single-value runs; zone handles under 6 history shapes against fresh-handle answers and "
         "the zone-file oracle; several zones in one run against one zone per run; dadd REF with durations as stdin lines; "
         "mixed CRLF/LF line ends; the tool histories repeated on the 'pat' build (autos pre-filled with a pattern).",
